@@ -98,6 +98,7 @@ type LabelCase struct {
 	Force     bool      `json:"force_default_max_age"`
 	DefSecs   int       `json:"default_max_age_s"`
 	Gets      int       `json:"gets"`
+	Via416    bool      `json:"via_416,omitempty"` // the entry is stored through the proxy's retry after an origin 416
 }
 
 var reTTL = regexp.MustCompile(`ttl=(-?\d+)`)
@@ -148,7 +149,7 @@ var subLabel = ev.Register("labels-ttl-age",
 	"a storable resource (generated freshness headers x cache_policy x default lifetime in seconds) fetched 2-4 times back to back; oracle: every response's X-Cache and Cache-Status agree with the origin log (HIT <=> origin not contacted), a HIT's ttl lies in [L-2, L] for an exact reference lifetime L and is <= L for an at-most lifetime, never negative, and Age is 0 or 1; non-trivial = at least one HIT was checked against a header-derived (non-default) lifetime; distinct by header set + flags",
 	func(c LabelCase, o *ev.Obs) *ev.Failure {
 		site := origin.NewSite()
-		v := origin.Version{Ver: 1, Len: 300, ETag: `"e1"`}
+		v := origin.Version{Ver: 1, Len: 300, ETag: `"e1"`, HonorRange: c.Via416, Bare416: true}
 		for _, l := range c.Fresh.CC {
 			v.Headers = append(v.Headers, origin.HV{K: "Cache-Control", V: l})
 		}
@@ -159,7 +160,8 @@ var subLabel = ev.Register("labels-ttl-age",
 		org := origin.New(site.Handler())
 		defer org.Close()
 		def := time.Duration(c.DefSecs) * time.Second
-		env := px.New(px.Opts{Backend: c.Backend, IgnoreCC: c.Ignore, ForceDefault: c.Force, DefaultMaxAge: def})
+		env := px.New(px.Opts{Backend: c.Backend, IgnoreCC: c.Ignore, ForceDefault: c.Force, DefaultMaxAge: def, Retry416: true})
+		o.Classf("stored-via-416-retry:%v", c.Via416)
 		defer env.Close()
 		start := time.Now()
 		began := start
@@ -170,9 +172,19 @@ var subLabel = ev.Register("labels-ttl-age",
 		hits := 0
 		for i := 1; i <= c.Gets; i++ {
 			id := fmt.Sprintf("g%d", i)
-			resp, err := env.Via(c.Transport, px.Req{Method: "GET", Host: org.Addr(), Target: "/r", ReqID: id})
+			req := px.Req{Method: "GET", Host: org.Addr(), Target: "/r", ReqID: id}
+			if c.Via416 && i == 1 {
+				// the entry gets stored through the retry path: the origin refuses this range with 416, the proxy
+				// asks again without Range and stores the 200; its lifetime is that 200's, not the 416's
+				req.Headers = []px.H{{K: "Range", V: "bytes=999999-"}}
+			}
+			resp, err := env.Via(c.Transport, req)
 			if p := env.Panics(); p != "" {
 				return ev.Failf("labels.handler-panic", "%s", p)
+			}
+			if c.Via416 && i == 1 && err == nil && resp.ReadErr == nil && (resp.Status == 416 || resp.Status == 200) {
+				start = time.Now()
+				continue
 			}
 			if err != nil || resp.ReadErr != nil {
 				return ev.Failf("labels.no-response", "%s: %v / %v", id, err, resp)
@@ -242,6 +254,10 @@ func drawLabel(t *rapid.T) LabelCase {
 		Force:     rapid.IntRange(0, 2).Draw(t, "force") == 0,
 		DefSecs:   rapid.SampledFrom([]int{30, 600, 3600, 86400}).Draw(t, "def"),
 		Gets:      rapid.IntRange(2, 4).Draw(t, "gets"),
+	}
+	c.Via416 = rapid.IntRange(0, 3).Draw(t, "via416") == 0
+	if c.Via416 && c.Gets < 3 {
+		c.Gets = 3
 	}
 	if rapid.IntRange(0, 2).Draw(t, "simple") == 0 {
 		c.Fresh = rapid.SampledFrom([]gen.Fresh{{}, {CC: []string{"max-age=60"}}, {CC: []string{"max-age=5"}}, {CC: []string{"public, max-age=3600"}},
